@@ -123,6 +123,14 @@ def cases(draw):
             hist += [["g", "G90"], ["g", "G21"], ["at", "ExcludeRegion", draw(st.sampled_from(["off", "off", "on"]))], first[0]]
             if draw(st.booleans()):
                 hist.append(["event", draw(st.sampled_from(["PRINT_DONE", "PRINT_CANCELLED", "PRINT_FAILED"]))])
+    if draw(st.integers(0, 11)) == 0:
+        # the very same file was printed before (to the end, or aborted), followed by a long stretch of other commands
+        hist += [["event", "PRINT_STARTED"]] + [it for it in prog if it[0] in ("g", "at")]
+        for n in range(draw(st.sampled_from([0, 150, 600]))):
+            hist.append(["g", "G1 X%d.%02d Y%d" % (70 + n % 20, n % 100, 70 + n // 20)])
+            if n % 4 == 1:
+                hist.append(["g", "G2 X%d.%02d Y%d I%d.5 J0" % (73 + n % 20, n % 100, 70 + n // 20, 1 + n % 3)])
+        hist.append(["event", draw(st.sampled_from(["PRINT_DONE", "PRINT_CANCELLED", "PRINT_FAILED"]))])
     if draw(st.integers(0, 5)) == 0:
         prog = prog[1:]          # un-homed program
     if draw(st.integers(0, 2)) == 0:
